@@ -150,6 +150,7 @@ def cube_words(rng, tier):
 
 class C02(RVCheck):
     pid = "C02"
+    harness_timeout = 7200      # the thorough tier parses all 2^32 words of all 8 configurations (about 15 min on 16 cores)
     mode = "decode"
     nstates = 0
     mc_thorough = [("RV_MC", "RV_MC")]
